@@ -26,7 +26,9 @@ func shortFn(fn string) string {
 	return fn
 }
 
-// ParseRaces splits a race log into reports.
+// ParseRaces splits a race log into reports. The racing function of each access is the first
+// frame of its stack that is not Go runtime/standard library code; it is a library function if
+// its file is under /repo, a harness function otherwise.
 func ParseRaces(txt string) []RaceReport {
 	var out []RaceReport
 	blocks := strings.Split(txt, "WARNING: DATA RACE")
@@ -35,17 +37,24 @@ func ParseRaces(txt string) []RaceReport {
 			b = b[:i]
 		}
 		r := RaceReport{Text: "WARNING: DATA RACE" + b}
-		// the two access stacks are the first two paragraphs
 		paras := strings.Split(strings.TrimLeft(b, "\n"), "\n\n")
 		for k := 0; k < 2 && k < len(paras); k++ {
 			frames := rxRaceFrame.FindAllStringSubmatch(paras[k], -1)
 			for _, f := range frames {
-				if strings.HasPrefix(f[2], "/repo/") {
-					if r.Tops[k] == "" {
+				file := f[2]
+				if strings.Contains(file, "/toolchain@") || strings.Contains(file, "/go/src/") || strings.HasPrefix(file, "/usr/") {
+					continue // runtime / standard library
+				}
+				if r.Tops[k] == "" {
+					if strings.HasPrefix(file, "/repo/") {
 						r.Tops[k] = shortFn(f[1])
+						r.Repo = true
+					} else {
+						r.Tops[k] = "harness"
 					}
+				}
+				if strings.HasPrefix(file, "/repo/") {
 					r.Entries[k] = shortFn(f[1])
-					r.Repo = true
 				}
 			}
 		}
@@ -69,9 +78,28 @@ func (r RaceReport) Sig() string {
 	return "race:" + a + "~" + b
 }
 
+// LoadRaceFunctions reads the committed calibration set: library functions that are known to
+// take part in data races between the main loop, the resize goroutine and application
+// goroutines on the unchanged tree (read-only at run time).
+func LoadRaceFunctions() map[string]bool {
+	out := map[string]bool{"harness": true}
+	b, err := os.ReadFile(filepath.Join(verifRoot(), "race_known_functions.txt"))
+	if err != nil {
+		return out
+	}
+	for _, l := range strings.Split(string(b), "\n") {
+		l = strings.TrimSpace(l)
+		if l != "" && !strings.HasPrefix(l, "#") {
+			out[l] = true
+		}
+	}
+	return out
+}
+
 func collectRaces(agg *Agg, work string) {
 	files, _ := filepath.Glob(filepath.Join(work, "race-*"))
 	sort.Strings(files)
+	known := LoadRaceFunctions()
 	n := 0
 	for _, f := range files {
 		b, err := os.ReadFile(f)
@@ -81,7 +109,7 @@ func collectRaces(agg *Agg, work string) {
 		for _, r := range ParseRaces(string(b)) {
 			n++
 			if !r.Repo {
-				agg.Inconcl["race report without a library frame (harness): "+r.Sig()]++
+				agg.Inconcl["race report between harness functions only: "+r.Sig()]++
 				continue
 			}
 			e0, e1 := r.Entries[0], r.Entries[1]
@@ -92,6 +120,15 @@ func collectRaces(agg *Agg, work string) {
 				agg.Sets["race_entry_pairs"] = map[string]bool{}
 			}
 			agg.Sets["race_entry_pairs"][e0+" ~ "+e1] = true
+			if agg.Sets["race_functions_seen"] == nil {
+				agg.Sets["race_functions_seen"] = map[string]bool{}
+			}
+			agg.Sets["race_functions_seen"][r.Tops[0]] = true
+			agg.Sets["race_functions_seen"][r.Tops[1]] = true
+			if known[r.Tops[0]] && known[r.Tops[1]] {
+				agg.addFinding(-1, Finding{Sig: "race:both-functions-in-the-known-set", Detail: firstN(r.Text, 3000)})
+				continue
+			}
 			agg.addFinding(-1, Finding{Sig: r.Sig(), Detail: firstN(r.Text, 3000)})
 		}
 	}
